@@ -8,6 +8,7 @@ import WowVerif.Model.Enum
 import WowVerif.Model.Frame
 import WowVerif.Model.Geometry
 import WowVerif.Model.SemIO
+import WowVerif.Model.SemSize
 import Std.Data.HashMap
 namespace WowVerif.Driver
 
@@ -426,6 +427,38 @@ def semHandle (st : DState) (ws : List String) : Option String :=
           | some b => some s!"ok {if b.isEmpty then "-" else hexOf b} n={b.length}"
     | none, _ => some "nokey"
     | _, _ => some "bad-op"
+  | ["genbad", key, seed, at_, mode] =>
+    match st.corpus.get? key, seed.toNat?, at_.toNat?, mode.toNat? with
+    | some (_, c), some seed, some at_, some mode =>
+      match Sem.firstPrim c with
+      | some p => some s!"unsupported {p}"
+      | none =>
+        match Sem.genCorrupt c seed at_ mode with
+        | none => some "genfail"
+        | some (_, none) => some "nosite"
+        | some (vs, some (bad, k)) =>
+          match Sem.encode (Sem.loosenMs c) vs with
+          | none => some "encfail"
+          | some b =>
+            -- what the specification decoder says about the corrupted bytes
+            let verdict := match Sem.decode c b with | .error e => showErr e | .ok _ => "ok"
+            some s!"ok {if b.isEmpty then "-" else hexOf b} bad={bad} wire={k} spec={verdict.replace " " "_"}"
+    | none, _, _, _ => some "nokey"
+    | _, _, _, _ => some "bad-op"
+  | ["fixed", key] =>
+    match st.corpus.get? key with
+    | some (_, c) => match Sem.firstPrim c with
+      | some p => some s!"unsupported {p}"
+      | none => match Sem.fixedMs c with | some n => some s!"some {n}" | none => some "none"
+    | none => some "nokey"
+  | ["enumread", wire, "direct", w] =>
+    match wire.toNat?, w.toNat? with
+    | some wire, some w => some (if Sem.enumReadOk wire (.direct w) then "ok" else "fail")
+    | _, _ => some "bad-op"
+  | ["enumread", wire, "cast", w, b] =>
+    match wire.toNat?, w.toNat?, b.toNat? with
+    | some wire, some w, some b => some (if Sem.enumReadOk wire (.castThenTry w b) then "ok" else s!"fail alias=+{256 ^ b}")
+    | _, _, _ => some "bad-op"
   | ["keys"] => some s!"{st.corpus.size}"
   | _ => none
 
